@@ -77,7 +77,7 @@ def gen_tree(draw, levels, top=True):
 def gen(draw):
     tree = gen_tree(draw, draw(st.integers(0, 3)))
     if draw(st.integers(0, 7)) == 0:
-        tree = ['limit', draw(st.integers(1, 5)), tree if draw(st.booleans()) else None]
+        tree = ['limit', draw(st.integers(0, 5)), tree if draw(st.booleans()) else None]
     n = draw(st.integers(0, 8))
     # ints plus a few equal-but-distinguishable values (1 / 1.0 / True, 2 / 2.0, 0 / 0.0 / False): ties must go to the first
     items = [draw(st.sampled_from(list(range(-4, 10)) + [1.0, 2.0, 0.0, True, False, 4.0])) for _ in range(n)]
@@ -167,7 +167,8 @@ def needs_items(r):
     if r[0] == 'leaf':
         return r[1] not in ('list', 'listx2', 'listskip')
     if r[0] == 'limit':
-        return True
+        # a limited list / dict starts out as the empty list / dict like an unlimited one
+        return needs_items(r[2]) if r[2] is not None else False
     return False
 
 
@@ -210,6 +211,8 @@ def mutable_ids(v, acc=None):
 
 def check(recipe, ctx):
     tree, items = recipe['tree'], list(recipe['items'])
+    if tree[0] == 'limit' and tree[1] == 0 and needs_items(tree):
+        tree = ['limit', 1, tree[2]]       # an aggregator over no items at all is outside the statement
     if not items and needs_items(tree):
         items = [4]
     if tree[0] == 'dict' and not items:
